@@ -129,6 +129,69 @@ Fixpoint mrun (fixed : bool) (st : mstate) (ops : list mop) : option mstate :=
 
 Definition minit : mstate := mkM [] [] 0.
 
+(* ---- D. concurrent Get/Put on one BucketedPool ------------------------------------------- *)
+
+(* Get holds the pool's mutex from the budget test to the accounting (source fact: mtx.Lock
+   first, Unlock deferred, test and usedTotal += inline in between), Put takes it for the
+   subtraction: a concurrent execution is an interleaving of atomic Get / Put steps. Threads
+   are sequences of operations; a schedule names the thread that makes the next step. *)
+Inductive top := TGet (sz : N) | TPut (k : nat).   (* Put: the k-th slice this thread still holds *)
+
+Record tstate := mkT { t_used : N; t_outs : list (list N); t_progs : list (list top) }.
+
+Definition tinit (threads : list (list top)) : tstate := mkT 0 (map (fun _ => []) threads) threads.
+
+(* one atomic step of thread i; the observation (ok, capacity handed out, UsedBytes afterwards).
+   A thread without remaining operations (or an unknown thread) makes an empty step. *)
+Definition tstep (fixed : bool) (sizes : list N) (maxt : N) (st : tstate) (i : nat) : tstate * pobs :=
+  match nth_error (t_progs st) i, nth_error (t_outs st) i with
+  | Some (o :: rest), Some outs =>
+    let progs' := set_nth i rest (t_progs st) in
+    match o with
+    | TGet sz =>
+      match pget fixed sizes maxt (mkP (t_used st) outs) sz with
+      | Some p' => (mkT (used p') (set_nth i (out p') (t_outs st)) progs', (true, charge sizes sz, used p'))
+      | None => (mkT (t_used st) (t_outs st) progs', (false, 0, t_used st))
+      end
+    | TPut k =>
+      let p' := pput (mkP (t_used st) outs) k in
+      (mkT (used p') (set_nth i (out p') (t_outs st)) progs', (true, 0, used p'))
+    end
+  | _, _ => (st, (true, 0, t_used st))
+  end.
+
+Fixpoint trun (fixed : bool) (sizes : list N) (maxt : N) (st : tstate) (sched : list nat) : list pobs :=
+  match sched with
+  | [] => []
+  | i :: r => let '(st', o) := tstep fixed sizes maxt st i in o :: trun fixed sizes maxt st' r
+  end.
+
+Fixpoint tfinal (fixed : bool) (sizes : list N) (maxt : N) (st : tstate) (sched : list nat) : tstate :=
+  match sched with
+  | [] => st
+  | i :: r => tfinal fixed sizes maxt (fst (tstep fixed sizes maxt st i)) r
+  end.
+
+Definition total_out (outs : list (list N)) : N := sum_n (map sum_n outs).
+
+(* the same replayed on observations: what each thread holds, from the capacities it was given *)
+Fixpoint sched_pred (maxt : N) (outs : list (list N)) (progs : list (list top)) (sched : list nat) (obs : list pobs) : bool :=
+  match sched, obs with
+  | [], [] => true
+  | i :: r, (ok, c, u) :: obr =>
+    match nth_error progs i, nth_error outs i with
+    | Some (o :: rest), Some oi =>
+      let oi' := match o with
+                 | TGet _ => if ok then oi ++ [c] else oi
+                 | TPut k => remove_nth k oi
+                 end in
+      let outs' := set_nth i oi' outs in
+      ((maxt =? 0) || (u <=? maxt)) && (u =? total_out outs') && sched_pred maxt outs' (set_nth i rest progs) r obr
+    | _, _ => ((maxt =? 0) || (u <=? maxt)) && (u =? total_out outs) && sched_pred maxt outs progs r obr
+    end
+  | _, _ => false
+  end.
+
 (* ---- cases ------------------------------------------------------------------------- *)
 
 Inductive case :=
@@ -139,7 +202,15 @@ Inductive case :=
 | CShard (ops : list mop) (drained : list N)
 (* [reqs] concurrent Series requests through one real ProxyStore over [nstores] stores, the first
    [nfail] of which refuse the stream; whether afterwards some buffer comes out of the proxy's pool twice *)
-| CProxy (reqs nstores nfail : nat) (sharded : bool) (dup : bool).
+| CProxy (reqs nstores nfail : nat) (sharded : bool) (dup : bool)
+(* threads of Get/Put on one real pool, executed in the order of the schedule; one Get is parked
+   inside the pool's allocation while the following steps of the other threads are attempted
+   (they run during the parked Get iff the pool's lock is free then): observations per step *)
+| CSched (sizes : list N) (maxt : N) (threads : list (list top)) (sched : list nat) (obs : list pobs)
+(* the same threads released together through a barrier on a fresh pool, many times: did the
+   capacities checked out at one moment (or UsedBytes) ever exceed maxTotal; UsedBytes after
+   every thread returned what it held, maximum over the repetitions *)
+| CStress (sizes : list N) (maxt : N) (threads : list (list top)) (exceeded : bool) (final_used : N).
 
 Definition pobs_eqb (a b : pobs) : bool :=
   Bool.eqb (fst (fst a)) (fst (fst b)) && (snd (fst a) =? snd (fst b)) && (snd a =? snd b).
@@ -254,6 +325,11 @@ Definition corr_ok (c : case) : bool :=
     | Some st => list_eqb N.eqb (sort_n (mpool st)) drained
     | None => false
     end
+  | CSched sizes maxt threads sched obs =>
+    list_eqb pobs_eqb (trun true sizes maxt (tinit threads) sched) obs
+  | CStress _ maxt _ exceeded fin =>
+    (* every interleaving of atomic steps keeps the budget (theorem C17_concurrent_budget) *)
+    ((maxt =? 0) || negb exceeded) && (fin =? 0)
   | CProxy reqs k nfail sharded dup =>
     match pxrun true pxinit (px_requests reqs k nfail sharded 0 0) with
     | Some st => Bool.eqb dup (negb (nodup_n (mpool (px_m st))))
@@ -294,4 +370,6 @@ Definition pred_ok (c : case) : bool :=
   | CShard ops drained => nodup_n (drained ++ somes (held_open ops []))
     (* no buffer sits in the pool twice, and none is both in the pool and held by an open matcher *)
   | CProxy _ _ _ _ dup => negb dup
+  | CSched _ maxt threads sched obs => sched_pred maxt (map (fun _ => []) threads) threads sched obs
+  | CStress _ maxt _ exceeded fin => ((maxt =? 0) || negb exceeded) && (fin =? 0)
   end.
